@@ -36,6 +36,126 @@ func engineSLOT(w *World, tier string) *EngineResult {
 		return f != nil && f.Signature.Recv() != nil && isPtrToNamed(f.Signature.Recv().Type(), modulePath+"/parser", "Parser")
 	}
 	nSrc, nUses := 0, 0
+	// slotWalk: forward closure of the values that are the slot (or lists of slots) from
+	// start; bad lists retentions, returned the result positions of the enclosing function
+	// a slot (list) is returned at.
+	var slotWalk func(start ssa.Value, level int) (bad []string, returned map[int]bool)
+	slotWalk = func(start ssa.Value, level int) (bad []string, returned map[int]bool) {
+		returned = map[int]bool{}
+		slot := map[ssa.Value]bool{}
+		var walk func(v ssa.Value, depth int)
+		walk = func(v ssa.Value, depth int) {
+			if slot[v] || depth > 12 || v.Referrers() == nil {
+				return
+			}
+			slot[v] = true
+			for _, ref := range *v.Referrers() {
+				nUses++
+				switch x := ref.(type) {
+				case *ssa.Return:
+					for ri, rv := range x.Results {
+						if rv == v {
+							returned[ri] = true
+						}
+					}
+				case *ssa.TypeAssert:
+					walk(x, depth+1)
+				case *ssa.Extract:
+					if x.Index == 0 {
+						walk(x, depth+1)
+					}
+				case *ssa.Phi, *ssa.ChangeType, *ssa.MakeInterface, *ssa.ChangeInterface:
+					walk(x.(ssa.Value), depth+1)
+				case *ssa.Store:
+					if x.Val == v {
+						// into a local cell (variable, list element under construction): follow the cell
+						switch a := x.Addr.(type) {
+						case *ssa.Alloc:
+							for _, r2 := range *a.Referrers() {
+								if ld, ok := r2.(*ssa.UnOp); ok {
+									walk(ld, depth+1)
+								}
+							}
+						case *ssa.IndexAddr:
+							if root, ok := a.X.(*ssa.Alloc); ok { // array backing a variadic/append list
+								for _, r2 := range *root.Referrers() {
+									if sl, ok := r2.(*ssa.Slice); ok {
+										walk(sl, depth+1)
+									}
+								}
+							} else {
+								bad = append(bad, "stored into an element at "+w.pos(instrPos(x)))
+							}
+						case *ssa.FieldAddr:
+							bad = append(bad, "stored into field "+fieldNameOf(a)+" at "+w.pos(instrPos(x)))
+						default:
+							bad = append(bad, "stored at "+w.pos(instrPos(x)))
+						}
+					}
+				case *ssa.IndexAddr: // element of a list of slots
+					for _, r2 := range *x.Referrers() {
+						if ld, ok := r2.(*ssa.UnOp); ok {
+							walk(ld, depth+1)
+						}
+					}
+				case *ssa.Slice:
+					walk(x, depth+1)
+				case *ssa.Range, *ssa.Next:
+				case *ssa.MapUpdate:
+					if x.Value == v {
+						bad = append(bad, "put into a map at "+w.pos(instrPos(x)))
+					}
+				case *ssa.MakeClosure:
+					// captured by a closure of the same function: follow the free variable
+				case *ssa.Call:
+					if bi, ok := x.Call.Value.(*ssa.Builtin); ok {
+						if bi.Name() == "append" {
+							walk(x, depth+1)
+						}
+						continue
+					}
+					cal := x.Call.StaticCallee()
+					if cal == nil || cal.Pkg == nil || !inModule(cal.Pkg.Pkg.Path()) || len(cal.Blocks) == 0 {
+						continue
+					}
+					if isParserMethod(cal) {
+						continue // republication
+					}
+					for ai, a := range x.Call.Args {
+						if a != v {
+							continue
+						}
+						if x.Call.Signature().Recv() != nil && ai == 0 {
+							// receiver of a method: a mutator writes through the slot, which is what a slot is for
+							continue
+						}
+						// a helper that only collects the slot into the list it returns is the local
+						// collection, one call away: follow its result instead
+						if kp.keeps(cal, ai, 0) {
+							if level < 2 && ai < len(cal.Params) {
+								cbad, cret := slotWalk(cal.Params[ai], level+1)
+								if len(cbad) == 0 && len(cret) > 0 {
+									if cal.Signature.Results().Len() == 1 {
+										walk(x, depth+1)
+									} else if x.Referrers() != nil {
+										for _, r2 := range *x.Referrers() {
+											if ex, ok := r2.(*ssa.Extract); ok && cret[ex.Index] {
+												walk(ex, depth+1)
+											}
+										}
+									}
+									continue
+								}
+							}
+							bad = append(bad, fmt.Sprintf("passed at %s to %s, which retains it (%s)", w.pos(instrPos(x)), fnKey(cal), kp.why[cal][ai]))
+						}
+					}
+				}
+			}
+		}
+		walk(start, 0)
+		return
+	}
 	for _, fn := range w.Funcs {
 		ord := 0
 		for _, b := range fn.Blocks {
@@ -51,97 +171,7 @@ func engineSLOT(w *World, tier string) *EngineResult {
 					construct += fmt.Sprintf("#%d", ord)
 				}
 				pos := w.pos(instrPos(c))
-				// forward closure of values that are the slot (or lists of slots)
-				slot := map[ssa.Value]bool{}
-				var bad []string
-				var walk func(v ssa.Value, depth int)
-				walk = func(v ssa.Value, depth int) {
-					if slot[v] || depth > 12 || v.Referrers() == nil {
-						return
-					}
-					slot[v] = true
-					for _, ref := range *v.Referrers() {
-						nUses++
-						switch x := ref.(type) {
-						case *ssa.TypeAssert:
-							walk(x, depth+1)
-						case *ssa.Extract:
-							if x.Index == 0 {
-								walk(x, depth+1)
-							}
-						case *ssa.Phi, *ssa.ChangeType, *ssa.MakeInterface, *ssa.ChangeInterface:
-							walk(x.(ssa.Value), depth+1)
-						case *ssa.Store:
-							if x.Val == v {
-								// into a local cell (variable, list element under construction): follow the cell
-								switch a := x.Addr.(type) {
-								case *ssa.Alloc:
-									for _, r2 := range *a.Referrers() {
-										if ld, ok := r2.(*ssa.UnOp); ok {
-											walk(ld, depth+1)
-										}
-									}
-								case *ssa.IndexAddr:
-									if root, ok := a.X.(*ssa.Alloc); ok { // array backing a variadic/append list
-										for _, r2 := range *root.Referrers() {
-											if sl, ok := r2.(*ssa.Slice); ok {
-												walk(sl, depth+1)
-											}
-										}
-									} else {
-										bad = append(bad, "stored into an element at "+w.pos(instrPos(x)))
-									}
-								case *ssa.FieldAddr:
-									bad = append(bad, "stored into field "+fieldNameOf(a)+" at "+w.pos(instrPos(x)))
-								default:
-									bad = append(bad, "stored at "+w.pos(instrPos(x)))
-								}
-							}
-						case *ssa.IndexAddr: // element of a list of slots
-							for _, r2 := range *x.Referrers() {
-								if ld, ok := r2.(*ssa.UnOp); ok {
-									walk(ld, depth+1)
-								}
-							}
-						case *ssa.Slice:
-							walk(x, depth+1)
-						case *ssa.Range, *ssa.Next:
-						case *ssa.MapUpdate:
-							if x.Value == v {
-								bad = append(bad, "put into a map at "+w.pos(instrPos(x)))
-							}
-						case *ssa.MakeClosure:
-							// captured by a closure of the same function: follow the free variable
-						case *ssa.Call:
-							if bi, ok := x.Call.Value.(*ssa.Builtin); ok {
-								if bi.Name() == "append" {
-									walk(x, depth+1)
-								}
-								continue
-							}
-							cal := x.Call.StaticCallee()
-							if cal == nil || cal.Pkg == nil || !inModule(cal.Pkg.Pkg.Path()) || len(cal.Blocks) == 0 {
-								continue
-							}
-							if isParserMethod(cal) {
-								continue // republication
-							}
-							for ai, a := range x.Call.Args {
-								if a != v {
-									continue
-								}
-								if x.Call.Signature().Recv() != nil && ai == 0 {
-									// receiver of a method: a mutator writes through the slot, which is what a slot is for
-									continue
-								}
-								if kp.keeps(cal, ai, 0) {
-									bad = append(bad, fmt.Sprintf("passed at %s to %s, which retains it (%s)", w.pos(instrPos(x)), fnKey(cal), kp.why[cal][ai]))
-								}
-							}
-						}
-					}
-				}
-				walk(c, 0)
+				bad, _ := slotWalk(c, 0)
 				if len(bad) == 0 {
 					r.holds("SLOT", fnKey(fn), construct, "the slot is only written through, read, collected locally or republished through the parser", pos)
 				} else {
